@@ -5,6 +5,7 @@ import (
 	"bytes"
 	"context"
 	"encoding/json"
+	goerrors "errors"
 	"fmt"
 	"io"
 	"net/http"
@@ -384,6 +385,65 @@ func c08AuthFn(fn string, st *c08State) security.UserPassAuthentication {
 // lists of different length, unknown tokens, bad hex): the shrinker produces such lines, they are not
 // observations of the code under test. Panics of the code under test are recovered where it is called
 // and reported in the outcome field.
+// c08TypedEntryAgrees: "406 when nothing the operation produces is acceptable" is the answer of every entry
+// point. The same request, now carrying a body of an admitted media type, is put to the generated-server entry point
+// (Context.BindValidRequest, no binder): where the API handler answered 406 it must report 406 as well, and
+// where the handler ran it must not — unless it stopped at the body's media type first (415/400), which says
+// nothing about the response format. A disagreement is reported as a failure of the case.
+func c08TypedEntryAgrees(ctx *middleware.Context, req *http.Request, served int) {
+	if served != http.StatusNotAcceptable && (served < 200 || served > 299) {
+		return
+	}
+	// (a body of a media type the operation admits and has a consumer for: the gate in front lets it through)
+	mr0, ok0 := ctx.LookupRoute(req)
+	if !ok0 {
+		return
+	}
+	ct := ""
+	for _, c := range mr0.Consumes {
+		if _, has := mr0.Consumers[c]; has {
+			ct = c
+			break
+		}
+	}
+	if ct == "" {
+		return
+	}
+	req.Header.Set("Content-Type", ct)
+	req.Body, req.ContentLength = io.NopCloser(strings.NewReader("{}")), 2
+	mr, rq, ok := ctx.RouteInfo(req)
+	if !ok {
+		return
+	}
+	codes := map[int32]bool{}
+	var walk func(err error)
+	walk = func(err error) {
+		var ce *errors.CompositeError
+		if goerrors.As(err, &ce) {
+			for _, e := range ce.Errors {
+				walk(e)
+			}
+			return
+		}
+		var ae errors.Error
+		if goerrors.As(err, &ae) {
+			codes[ae.Code()] = true
+		} else if err != nil {
+			codes[-1] = true
+		}
+	}
+	walk(ctx.BindValidRequest(rq, mr, nil))
+	typed406 := codes[http.StatusNotAcceptable]
+	delete(codes, http.StatusNotAcceptable)
+	if len(codes) > 0 {
+		return
+	}
+	if typed406 != (served == http.StatusNotAcceptable) {
+		panic(fmt.Sprintf("the entry points disagree on the response format: the API handler answered %d, BindValidRequest for the same request with a body reports 406: %v (Accept %q)",
+			served, typed406, req.Header["Accept"]))
+	}
+}
+
 func c08Exec(in []string) (out []string) {
 	defer func() {
 		if p := recover(); p != nil {
@@ -432,6 +492,11 @@ func c08Run(in []string) []string {
 	}
 	if len(opProduces) > 0 {
 		op["produces"] = opProduces
+	}
+	if stream == "A" {
+		// what the operation consumes plays no part in a response; declared so that the generated-server entry
+		// point can be put the same request with a body (c08TypedEntryAgrees)
+		op["consumes"] = []string{"application/x-c08"}
 	}
 	if sec && stream == "A" {
 		op["security"] = []interface{}{map[string]interface{}{"basic": []string{}}}
@@ -484,6 +549,7 @@ func c08Run(in []string) []string {
 	middleware.Logger = c08Silent{}
 	api := untyped.NewAPI(d).WithoutJSONDefaults()
 	api.DefaultProduces = dflt
+	api.RegisterConsumer("application/x-c08", runtime.DiscardConsumer)
 	for i, k := range regKeys {
 		// the label is the key the registry files the producer under (RegisterProducer lower-cases it)
 		label := strings.ToLower(k)
@@ -644,6 +710,7 @@ func c08Run(in []string) []string {
 		st.supplied = herr
 	}
 	outcome := "ok"
+	servedA := false
 	func() {
 		defer func() {
 			if p := recover(); p != nil {
@@ -666,6 +733,7 @@ func c08Run(in []string) []string {
 		switch stream {
 		case "A":
 			handler.ServeHTTP(w, req)
+			servedA = true
 		case "R":
 			if !routeOK {
 				panic("C08 harness: route not found in stream R")
@@ -705,6 +773,9 @@ func c08Run(in []string) []string {
 			panic("C08: unknown stream " + stream)
 		}
 	}()
+	if servedA && outcome == "ok" {
+		c08TypedEntryAgrees(ctx, mkReq(accept, auth), w.status)
+	}
 
 	// ---- environment observations
 	encs := make([]string, len(regKeys))
